@@ -1,5 +1,154 @@
 import PkVerif.Drv.Common
-/-! `pkmodel-c16`: stub (property not built yet). -/
+import PkVerif.Model.JsonSign
+import PkVerif.Gen.Facts
+/-!
+`pkmodel-c16`: the jsonsign model behind a line protocol.
+
+    key <reftext> <kind>      declare a blob the key fetcher serves: 0 not a key, 1 public key only,
+                              2 public key whose secret key the EntityFetcher has        -> ok
+    doc <hex>                 set the base document for `v`                              -> ok <len>
+    trim <hex>                strings.TrimRightFunc(s, unicode.IsSpace)                  -> <hex>
+    rearmor <hex>             reArmor                                                    -> <hex>
+    json <hex>                json.Unmarshal into map[string]any                         -> err | ok k=kind,… (sorted)
+    sign <unsigned> <armored> <unixtime>  Sign (the time only matters to the real code);
+                              <armored> is what openpgp.ArmoredDetachSign returns  -> ok <doc> | err <class>
+    v <mut> <fact>            NewVerificationRequest + Verify of the mutated base document;
+                              mut = b | s<pos>:<byte> | i<pos>:<byte> | d<pos> | x<hex>;
+                              fact = - | <cls>@<digest>: "the OpenPGP check of the (signer, BP,
+                              armored) triple with that FNV digest has outcome cls (0 = good)"
+                                                   -> <class> i=<sigIndex> sig=<len>:<fnv> signer=<hex>
+-/
 namespace Pk.Drv.C16
-def machine : Machine := { σ := Unit, init := (), step := fun s _ => (s, "bad-op") }
+open Pk Pk.JsonSign
+
+def tbl : Ref.Tbl := ⟨Gen.refSizes, Gen.testRefTypes, Gen.maxOtherDigestLen⟩
+
+structure S where
+  keys : List (Bytes × Nat) := []
+  doc : Bytes := []
+
+def fnv (b : Bytes) : Nat :=
+  b.foldl (fun h x => ((h ^^^ x) * 16777619) % 4294967296) 2166136261
+
+def factDigest (signer bp armored : Bytes) : Nat := fnv (signer ++ 0 :: bp ++ 0 :: armored)
+
+def S.fetch (s : S) (ref : Bytes) : KeyRes (Bytes × Nat) :=
+  match s.keys.find? (fun p => p.1 == ref) with
+  | none => .missing
+  | some (_, 0) => .notkey
+  | some (r, k) => .key (r, k)
+
+def showSignErr : SignErr → String
+  | .jsonparse => "jsonparse" | .nosigner => "nosigner" | .malformed => "malformed"
+  | .nokey => "nokey" | .badkey => "badkey" | .nobrace => "nobrace" | .noentity => "noentity"
+  | .gpgparse => "gpgparse" | .panic => "panic"
+
+def showVErr : VErr → String
+  | .nosep => "nosep" | .sigjson => "sigjson" | .sigkeys => "sigkeys" | .nocamlisig => "nocamlisig"
+  | .signotstring => "signotstring" | .payloadjson => "payloadjson" | .noversion => "noversion"
+  | .nosigner => "nosigner" | .signernotstring => "signernotstring"
+  | .signermalformed => "signermalformed" | .missingkey => "missingkey" | .badkey => "badkey"
+  | .sig c => s!"sig:{c}"
+
+def showKind : JV → String
+  | .null => "z"
+  | .bool b => if b then "t" else "f"
+  | .num _ => "n"
+  | .str s => "s" ++ toHexString s
+  | .arr _ => "a"
+  | .obj _ => "o"
+
+def insertSorted (k : Bytes) : List Bytes → List Bytes
+  | [] => [k]
+  | x :: xs => if ltB k x then k :: x :: xs else if k == x then x :: xs else x :: insertSorted k xs
+
+def showMap (m : List (Bytes × JV)) : String :=
+  let keys := m.foldl (fun acc p => insertSorted p.1 acc) []
+  if keys.isEmpty then "ok -" else
+  "ok " ++ ",".intercalate (keys.map fun k =>
+    toHexString k ++ "=" ++ (match lookup k m with | some v => showKind v | none => "?"))
+
+/-- strict decimal (digits only; `String.toNat?` would accept `_`) -/
+def decNat? (w : String) : Option Nat :=
+  if w.isEmpty || !w.all Char.isDigit then none else w.toNat?
+
+def decInt? (w : String) : Bool :=
+  (decNat? w).isSome || (match w.toList with | '-' :: r => (decNat? (String.ofList r)).isSome | _ => false)
+
+def parsePosByte (w : String) : Option (Nat × Nat) :=
+  match w.splitOn ":" with
+  | [a, b] => (match decNat? a, decNat? b with
+    | some p, some v => if v < 256 then some (p, v) else none
+    | _, _ => none)
+  | _ => none
+
+/-- apply the mutation word to the base document -/
+def mutate (doc : Bytes) (w : String) : Option Bytes :=
+  if w == "b" then some doc
+  else match w.toList with
+  | 's' :: rest => (match parsePosByte (String.ofList rest) with
+      | some (p, v) => if p < doc.length then some (doc.take p ++ v :: doc.drop (p + 1)) else none
+      | none => none)
+  | 'i' :: rest => (match parsePosByte (String.ofList rest) with
+      | some (p, v) => if p ≤ doc.length then some (doc.take p ++ v :: doc.drop p) else none
+      | none => none)
+  | 'd' :: rest => (match decNat? (String.ofList rest) with
+      | some p => if p < doc.length then some (doc.take p ++ doc.drop (p + 1)) else none
+      | none => none)
+  | 'x' :: rest => hexArg (String.ofList rest)
+  | _ => none
+
+/-- `-` or `<cls>@<digest>` -/
+def parseFact (w : String) : Option (Option (Nat × Nat)) :=
+  if w == "-" then some none
+  else match w.splitOn "@" with
+  | [a, b] => (match decNat? a, decNat? b with
+    | some c, some d => some (some (c, d))
+    | _, _ => none)
+  | _ => none
+
+def showVResult (r : VResult) : String :=
+  let cls := match r.err with | none => "ok" | some e => showVErr e
+  let idx := match r.sigIndex with | none => "-" | some i => toString i
+  let sg := match r.signer with | none => "-" | some s => toHexString s
+  s!"{cls} i={idx} sig={r.camliSig.length}:{fnv r.camliSig} signer={sg}"
+
+def step (s : S) (ws : List String) : S × String :=
+  match ws with
+  | ["key", r, k] =>
+    (match hexArg r, (if k == "0" then some 0 else if k == "1" then some 1 else if k == "2" then some 2 else none) with
+     | some ref, some kind => ({ s with keys := (ref, kind) :: s.keys }, "ok")
+     | _, _ => (s, "bad-op"))
+  | ["doc", d] =>
+    (match hexArg d with
+     | some b => ({ s with doc := b }, s!"ok {b.length}")
+     | none => (s, "bad-op"))
+  | ["trim", d] => (s, match hexArg d with | some b => toHexString (trimRightSpace b) | none => "bad-op")
+  | ["rearmor", d] => (s, match hexArg d with | some b => toHexString (reArmor b) | none => "bad-op")
+  | ["json", d] =>
+    (s, match hexArg d with
+      | some b => (match unmarshalMap b with | none => "err" | some m => showMap m)
+      | none => "bad-op")
+  | ["sign", u, a, t] =>
+    (s, match hexArg u, hexArg a, decInt? t with
+      | some unsigned, some armored, true =>
+        (match sign tbl s.fetch (fun (pk : Bytes × Nat) => if pk.2 = 2 then some pk else none)
+            (fun _ _ => armored) unsigned with
+         | .ok doc => "ok " ++ toHexString doc
+         | .error e => "err " ++ showSignErr e)
+      | _, _, _ => "bad-op")
+  | ["v", m, f] =>
+    (s, match mutate s.doc m, parseFact f with
+      | some d, some fact =>
+        let check : (Bytes × Nat) → Bytes → Bytes → Option Nat := fun pk bp armored =>
+          match fact with
+          | none => some 999
+          | some (cls, dg) =>
+            if factDigest pk.1 bp armored = dg then (if cls = 0 then none else some cls) else some 998
+        showVResult (verify tbl s.fetch check d)
+      | _, _ => "bad-op")
+  | _ => (s, "bad-op")
+
+def machine : Machine := { σ := S, init := {}, step := step }
+
 end Pk.Drv.C16
